@@ -1024,8 +1024,17 @@ def run_tonnx_case(ctx, spec, hist, placement, seeds, reqs, metas):
       first[0] = False
       return ks
 
-    # ---- reference: plain Linen use
-    r = call(lambda: module.init_with_output(draw(), x0))
+    # ---- reference: plain Linen use (lazy_init may be handed its own rngs= too)
+    init_seed = seeds[3] if len(seeds) > 3 and placement == 'alone' else None
+    ctx.count('tonnx_init_rngs', 'given' if init_seed is not None else 'own')
+    if init_seed is not None:
+      init_rngs = nnx.Rngs(params=init_seed, dropout=init_seed + 1)
+      itwin = nnx.Rngs(params=init_seed, dropout=init_seed + 1)
+      init_keys = {name: stream() for name, stream in itwin.items()}
+      first[0] = False
+    else:
+      init_keys = draw()
+    r = call(lambda: module.init_with_output(init_keys, x0))
     if r[0] != 'ok':
       ctx.notes.append(f'reference init raised {r[1]} on {spec}')
       return
@@ -1035,7 +1044,13 @@ def run_tonnx_case(ctx, spec, hist, placement, seeds, reqs, metas):
     keylog = []
     if placement == 'alone':
       w = bridge.ToNNX(Spy(module, keylog), rngs=mk_rngs())
-      r = call(lambda: bridge.lazy_init(w, x0))
+      if init_seed is not None:
+        r = call(lambda: bridge.lazy_init(w, x0, rngs=init_rngs))
+        if r[0] == 'ok' and (any(c != 0 for c in rng_counts(w.rngs).values()) or any(c != 1 for c in rng_counts(init_rngs).values())):
+          ctx.violation('tonnx-percall-rngs-ignored', f'lazy_init(x, rngs=nnx.Rngs(params={init_seed}, dropout={init_seed + 1})): given counts {rng_counts(init_rngs)} (1 expected), own counts {rng_counts(w.rngs)} (0 expected)', case)
+          return
+      else:
+        r = call(lambda: bridge.lazy_init(w, x0))
       get = lambda: w  # noqa: E731
       post = lambda y: y  # noqa: E731
     elif placement == 'nnx-parent':
@@ -1064,7 +1079,7 @@ def run_tonnx_case(ctx, spec, hist, placement, seeds, reqs, metas):
       return
     reqs.append(('init_attrs', [_base_reg_json(), [], forest_json(V, lbox_json)]))
     metas.append((case, 'init', impl_attrs_canon(wrapper_attrs(get()))))
-    own_flags = [True]  # per recorded init/apply: were the keys drawn from the wrapper's own rngs?
+    own_flags = [init_seed is None]  # per recorded init/apply: were the keys drawn from the wrapper's own rngs?
     for step, entry in enumerate(hist):
       mut, xs = entry[0], entry[1]
       callseed = entry[2] if len(entry) > 2 else None
@@ -1139,10 +1154,10 @@ def run_tonnx_case(ctx, spec, hist, placement, seeds, reqs, metas):
       streams = [['default', 0]] if default_only else [['params', 0], ['dropout', 0]]
       seed_of = {'default': seeds[0], 'params': seeds[0], 'dropout': seeds[1]}
       got = [sorted((n, key_str(k)) for n, k in d.items()) for d, own in zip(keylog, own_flags) if own]
-      reqs.append(('draw', [streams, len(got), True]))
+      reqs.append(('draw', [streams, len(got), init_seed is None]))
       metas.append((case, 'keys', (got, seed_of)))
       # draws from a per-call object: its stream key folded with count 0 (theorem tonnx_call_uses_given_rngs)
-      hist_seeds = [e[2] for e in hist if len(e) > 2 and e[2] is not None]
+      hist_seeds = ([init_seed] if init_seed is not None else []) + [e[2] for e in hist if len(e) > 2 and e[2] is not None]
       given = [sorted((n, key_str(k)) for n, k in d.items()) for d, own in zip(keylog, own_flags) if not own]
       for cs, g in zip(hist_seeds, given):
         want = sorted([('params', key_str(jax.random.fold_in(jax.random.key(cs), 0))), ('dropout', key_str(jax.random.fold_in(jax.random.key(cs + 1), 0)))])
@@ -1731,7 +1746,7 @@ def run(ctx):
     spec = gen_spec(rng, rng.choice([0, 1, 2, 2, 3]), want_stat=rng.random() < 0.7)
     hist = gen_thistory(rng)
     placement = 'alone' if i % 3 else 'nnx-parent'
-    seeds = [rng.randrange(100), rng.randrange(100), rng.random() < 0.3]
+    seeds = [rng.randrange(100), rng.randrange(100), rng.random() < 0.3, rng.randrange(2000, 3000) if rng.random() < 0.25 else None]
     case = {'kind': 'tonnx', 'spec': spec, 'hist': [list(e) for e in hist], 'placement': placement, 'seeds': seeds}
     guarded(ctx, case, lambda: run_tonnx_case(ctx, spec, hist, placement, seeds, reqs, metas))
     if i == 0:
